@@ -103,6 +103,20 @@ def run(lines, out, args):
                     else:
                         env[f[1]] = InterfaceClass(dec(f[3]), (Interface,), {"__doc__": "doc of %s" % f[1]}, __module__=dec(f[4]))
                     got = name_report(env[f[1]])
+                elif f[2] in ("C", "C2"):
+                    # an interface with methods of its own (`@interfacemethod`): an instance of a generated subclass of
+                    # InterfaceClass; "C2": one that extends another such interface (a generated subclass of a generated subclass)
+                    from zope.interface.interface import INTERFACE_METHODS
+                    im = lambda nm: {INTERFACE_METHODS: {nm: (lambda self: nm)}}
+                    if f[2] == "C":
+                        env[f[1]] = InterfaceClass(dec(f[3]), (Interface,), im("first"), __module__=dec(f[4]))
+                    else:
+                        L1 = InterfaceClass("L1_%s" % f[1], (Interface,), im("first"), __module__="zi.gen.custom")
+                        keep.append(L1)
+                        env[f[1]] = type(L1)(dec(f[3]), (L1,), im("second"), __module__=dec(f[4]))
+                        if env[f[1]].second() != "second" or env[f[1]].first() != "first":
+                            raise AssertionError("custom methods")
+                    got = name_report(env[f[1]]) + (" MODULE-LOST" if env[f[1]].__module__ != dec(f[4]) else "")
                 elif f[2] == "W":
                     env[f[1]] = Proxy(env[f[3]])
                 elif f[2] == "S":
